@@ -54,6 +54,12 @@ CHECKS = {
  "C18": dict(tech="history monitor with a per-instance configuration model, each history in a fresh process; behavioural observation through WriteStream output and a recording storage backend",
    text="Histories of constructor calls with every subset of the options (forced in the first cases; nil arguments included) and per-call WriteStreamWithOptions/ParseStreamWithOptions are executed in fresh processes; after every step every live instance is compared with its own model - Options fields, the format and indentation WriteStream really produces, the options a recording backend receives from Store/Retrieve - and a constructor without options must show the documented defaults.",
    note="What an absent per-call field falls back to is not judged. Indentation is observable on SPDX output only (CycloneDX rendering ignores it).", ref="DESIGN.md §5 C18"),
+ "C19": dict(tech="history monitor against a map model with one child process per call (uid 65534), tree listing + ptrace syscall log for confinement, on-disk faults and ptrace-injected errnos at every syscall",
+   text="Histories of Store/Retrieve calls (hostile identifiers, missing/nested/existing directory, both no-clobber settings) run through the public FileSystem backend in fresh unprivileged child processes and are compared with a map model after every call (round trip by proto.Equal, isolation by re-retrieving every known id, confinement by listing the tree with content hashes and by the ptrace log of created/renamed paths, no-clobber by entry bytes). Fault steps: unknown id, chmod 000, directory in place of the entry, 0-byte/truncated/bit-flipped/garbage entries, and EACCES/EIO/ENOSPC/EMFILE injected with ptrace at every file-system syscall of a Store and of a Retrieve; a process exit, neither/both or an empty document is a violation.",
+   note="A corrupted entry that still decodes to a non-empty document with the requested id is tolerated. Needs root to drop to uid 65534 and ptrace (present in this sandbox).", ref="DESIGN.md §5 C19"),
+ "C20": dict(tech="crash-point enumeration with a ptrace injector: SIGKILL at every file-system syscall stop and torn writes at chosen/all prefix lengths, followed by fresh-process retrieval",
+   text="The storing child runs under a Go ptrace tracer that follows all threads and numbers the entry/exit stops of every file-system syscall on the store directory; after a fault-free run fixes the sequence, the child is killed at every stop and, for each write, at each chosen prefix (thorough: every prefix for documents <= 8 KB, 4096 stratified at 64 KB) by rewriting the length register at syscall entry and killing at exit. After each trial fresh processes retrieve the target and two bystander ids: the outcome must be the complete old document, the complete new one or an error return; bystanders must be intact. Five scenarios x four document sizes.",
+   note="Process death only (page cache survives). Exhaustive for the syscall sequence the fault-free run exhibits; an unknown file-system syscall makes the run fail rather than pass silently.", ref="DESIGN.md §5 C20"),
  "C15": dict(tech="reference-model oracle (BFS with root boundaries) over all digraphs on 3 (thorough: 4) nodes and random multigraphs; CPU watchdog for termination",
    text="NodeGraph/NodeSiblings/NodeDescendants are executed on every digraph with self-loops on 3 nodes x every root subset x every start x depths 1..5 (thorough: also all 65536 digraphs on 4 nodes) and on random multigraphs up to 30 nodes; results are compared with an independent BFS model, checked for monotonicity and order-independence; a per-case CPU-time watchdog in the supervised child decides termination.",
    note="Trusts the BFS model and the watchdog budget (60 CPU-seconds per case, re-run alone with 10x before a hang is reported).", ref="DESIGN.md §5 C15"),
